@@ -1,6 +1,7 @@
 import Driver.Core
 import Driver.Pure
 import Driver.Pool
+import Driver.Rewards
 /-
 One line per handler object. The first handler that understands a line answers it.
 -/
@@ -9,7 +10,8 @@ namespace ZV.Driver
 def registry : List Obj := [
   pureObj purePow,
   pureObj pureRpc,
-  pureObj purePool
+  pureObj purePool,
+  pureObj pureRewards
 ]
 
 end ZV.Driver
